@@ -18,6 +18,7 @@ from ..loader import AnalysisError, ClassInfo, FuncInfo, dotted, norm, walk_no_n
 from ..report import Ctx
 from ._c09_helpers import Ev, Lin, NFunc, Path, Sym, both, canon_atom, fold_access, implies_le, invariant_env, lin, mentions, normalise, symname
 from ._c10_helpers import RETL, bind_call, callee_last, exceed_conds, raised_retl, roots_of
+from . import c09 as _c09
 from .c09 import input_stream_rule
 
 LEVEL_TEXT = (
@@ -44,9 +45,18 @@ LEVEL_TEXT = (
     "whatever the class of x, also through an alias of the bound method) is a truncation, hence a violation, unless every "
     "path that goes on without RequestEntityTooLarge knows len(result) < n (the read came back short: all input was seen); "
     "when the same object is read again later on the path or the read is one round of a loop this is not decided (exit 2). "
-    "Whether a caller inspects what a sized read left in the stream is not modelled. Memory held inside the stdlib is not modelled."
+    "Whether a caller inspects what a sized read left in the stream is not modelled. Memory held inside the stdlib is not modelled. "
+    "(R10.7) the streaming maximum is only as good as the stream class get_input_stream wraps the input in: for wsgi.LimitedStream "
+    "the clauses of C09 that are necessary for 'never more than max_content_length bytes are taken from the underlying stream, "
+    "going beyond raises RequestEntityTooLarge' are decided here by the same path analysis (shared with C09-R9.1/2/3/5, not a second "
+    "implementation): the underlying stream is touched only inside readinto; on every path every underlying read / readinto is "
+    "bounded by limit - position and happens only when limit - position >= 1, with nothing remaining on_exhausted() is called "
+    "instead; the position is written nowhere else and moves by exactly the count the underlying call returned; on_exhausted "
+    "raises RequestEntityTooLarge iff the limit is a maximum. What the other readers of io.RawIOBase do on top of readinto, and "
+    "whether the wrapped object honours its own read(n) / readinto(b) contract, is not decided."
 )
-TRUSTED = ["CPython ast", "bytearray.extend(data) grows the buffer by len(data)", "x.read(n) / read1 / readline / readlines / recv / peek / readinto hand back at most n bytes, whatever x is"]
+TRUSTED = ["CPython ast", "bytearray.extend(data) grows the buffer by len(data)", "x.read(n) / read1 / readline / readlines / recv / peek / readinto hand back at most n bytes, whatever x is",
+           "io.RawIOBase routes read / readline / readlines / iteration through readinto / readall (R10.7, as in C09)"]
 ASSUMPTIONS = [
     "SpooledTemporaryFile and parse_qsl internals are not followed",
     "limits, lengths and counters are ints or None, so a > b is a >= b + 1",
@@ -75,6 +85,7 @@ def run(ctx: Ctx) -> None:
         "R10.4": "urlencoded body: an unbounded stream.read() is dominated by a size bound; get_input_stream decision table (declared length, streamed maximum)",
         "R10.5": "each limit reaches the same-named parameter of every constructor of the chain and is stored in the attribute the guards read; Request defaults 500000 / 1000 / None",
         "R10.6": "on every path a configured limit reaches only is-None tests, ordering comparisons whose exceeded side raises RequestEntityTooLarge, the same-meaning parameter / attribute of the next stage, or the limit of LimitedStream(is_max=True); never a read size (unless the read is known to have come back short wherever parsing goes on), a slice bound, an object a method works on, a loop's sequence",
+        "R10.7": "the maximum-limited stream takes no more than its limit from the underlying stream (shared with C09-R9.1/2/3/5): the stream is touched only in LimitedStream.readinto, every underlying read there is bounded by limit - position and made only when that is >= 1, the position moves by exactly what was read, on_exhausted raises RequestEntityTooLarge iff the limit is a maximum",
     }.items():
         ctx.rule(rid, text)
 
@@ -88,6 +99,7 @@ def run(ctx: Ctx) -> None:
     input_stream_rule(ctx, "R10.4")
     _r105(ctx)
     _r106(ctx, dec, fp, mp)
+    _r107(ctx)
 
 
 # ---------------------------------------------------------------------
@@ -898,3 +910,106 @@ def _r106(ctx: Ctx, dec: ClassInfo, fp: ClassInfo, mp: ClassInfo) -> None:
                 st = astq.parent(st)
             ctx.ob("R10.6", f"{fi.qualname}: use of {what} is {kinds[0]}", ok, f"in `{norm(st if st is not None else node)[:90]}` on {len(verdicts)} path(s)" + (f"; also: {kinds[1:]}" if len(kinds) > 1 else ""), fi, node, f"{fi.qualname} use {what} in {norm(node)[:60]}")
     ctx.floor("R10.6", "uses of limits", nuse, 20)
+
+
+# ---------------------------------------------------------------------
+# R10.7: the stream class behind the streaming maximum.  get_input_stream (R10.4) only chooses LimitedStream(stream,
+# max_content_length, is_max=True); that no more than the maximum is taken from the server's stream is a property of
+# LimitedStream itself.  C09 decides it on the paths of readinto - the clauses that C10 needs are taken from there.
+
+
+class _EnoughSeen(Exception):
+    pass
+
+
+# (rule of C09, construct) -> taken over; construct None = every obligation of that rule
+_SHARED_09: dict[str, set[str] | None] = {"R9.1": {"stream users"}, "R9.2": None, "R9.3": {"_pos writers", "_pos increment source"}, "R9.5": {"on_exhausted"}}
+_NEEDED_09 = {"stream users", "exhausted branch", "_pos writers", "_pos increment source", "on_exhausted"}
+_AFTER_09 = {"R9.6", "R9.7"}  # clauses of C09 about other functions (readall, get_input_stream): not run a second time
+
+
+def _size_not_understood(fact: str) -> bool:
+    """C09 reports a size it cannot bound as unbounded; a size that is no integer linear expression (nor a min() of such) is
+    one the path analysis has no opinion about: not a violation, a give-up."""
+    sizes = re.findall(r"size `(.+?)` is not bounded by limit", fact) + re.findall(r"`(min\(.+?\))`: no operand is bounded", fact) + re.findall(r"fresh buffer of `(.+?)` bytes \(<= remaining: False\)", fact)
+    for txt in sizes:
+        try:
+            e = ast.parse(txt, mode="eval").body
+        except SyntaxError:
+            return True
+        parts = e.args if isinstance(e, ast.Call) and dotted(e.func) == "min" and not e.keywords else [e]
+        if not all(_plain_sum(x) for x in parts):
+            return True
+    return False
+
+
+def _plain_sum(e: ast.AST) -> bool:
+    """sums / differences / constant multiples of names, attributes, integer constants and len() of such: the expressions an
+    integer linear atom speaks about with nothing left opaque."""
+    if isinstance(e, ast.Constant):
+        return isinstance(e.value, int) and not isinstance(e.value, bool)
+    if isinstance(e, ast.Name) or (isinstance(e, ast.Attribute) and dotted(e) is not None):
+        return True
+    if isinstance(e, ast.UnaryOp) and isinstance(e.op, (ast.USub, ast.UAdd)):
+        return _plain_sum(e.operand)
+    if isinstance(e, ast.BinOp) and isinstance(e.op, (ast.Add, ast.Sub)):
+        return _plain_sum(e.left) and _plain_sum(e.right)
+    if isinstance(e, ast.BinOp) and isinstance(e.op, ast.Mult):
+        return (isinstance(e.left, ast.Constant) and _plain_sum(e.left) and _plain_sum(e.right)) or (isinstance(e.right, ast.Constant) and _plain_sum(e.right) and _plain_sum(e.left))
+    if isinstance(e, ast.Call) and dotted(e.func) == "len" and len(e.args) == 1 and not e.keywords:
+        return isinstance(e.args[0], ast.Name) or (isinstance(e.args[0], ast.Attribute) and dotted(e.args[0]) is not None)
+    return False
+
+
+class _SharedCtx:
+    """what C09's run() sees instead of the Ctx: obligations that C10 shares are recorded under C10's rule id, the others
+    are dropped; the run is ended when it leaves LimitedStream.readinto and the two hooks."""
+
+    def __init__(self, ctx: Ctx, rule: str):
+        self.ctx, self.rid, self.repo = ctx, rule, ctx.repo
+        self.pid, self.tier = ctx.pid, ctx.tier
+        self.taken: list[str] = []
+
+    def rule(self, rid: str, text: str) -> None:
+        pass
+
+    def note(self, msg: str) -> None:
+        pass
+
+    def error(self, msg: str) -> None:
+        self.ctx.error(msg)
+
+    def saw(self, *fis: FuncInfo) -> None:
+        self.ctx.saw(*[f for f in fis if f.cls is not None and f.cls.name.endswith("LimitedStream")])
+
+    def floor(self, rule: str, what: str, count: int, floor: int) -> None:
+        if rule in _AFTER_09:
+            raise _EnoughSeen()
+        if rule in _SHARED_09 and _SHARED_09[rule] is None:
+            self.ctx.floor(self.rid, f"LimitedStream: {what}", count, floor)
+
+    def ob(self, rule: str, instance: str, ok: bool, fact: str, where: t.Any = None, node: ast.AST | None = None, construct: t.Any = None) -> bool:
+        if rule in _AFTER_09:
+            raise _EnoughSeen()
+        cons = norm(construct) if isinstance(construct, ast.AST) else (construct if construct is not None else instance)
+        if rule not in _SHARED_09 or (_SHARED_09[rule] is not None and cons not in _SHARED_09[rule]):  # type: ignore[operator]
+            return bool(ok)
+        if not ok and ("unrecognised" in fact or _size_not_understood(fact)):
+            raise AnalysisError(f"LimitedStream.readinto: {fact[:200]} - whether the read is bounded is not decided")
+        self.taken.append(cons)
+        return self.ctx.ob(self.rid, f"LimitedStream: {instance}", ok, f"{fact} (C09-{rule})", where, node, construct)
+
+
+def _r107(ctx: Ctx) -> None:
+    view = _SharedCtx(ctx, "R10.7")
+    try:
+        _c09.run(view)  # type: ignore[arg-type]
+    except _EnoughSeen:
+        pass
+    except AnalysisError:
+        if not (_NEEDED_09 <= set(view.taken)):
+            raise  # a slot of readinto / the hooks could not be filled: nothing is known about the bound
+    missing = sorted(_NEEDED_09 - set(view.taken))
+    sites = [c for c in view.taken if c.startswith("bounded underlying ")]
+    if missing or not sites:
+        raise AnalysisError(f"LimitedStream: the shared analysis (C09) did not deliver {missing or 'any underlying call site'} (slot)")
